@@ -13,7 +13,7 @@ TRUSTED = [
     "measurement: the harness (no script installed, so the crate's real sockets are used) runs the real valve / quake / minecraft-java queries and raw exchanges through the crate-private sockets against an in-process loopback server thread (IPv4 and IPv6) and reports result, bytes seen by the server and wall-clock time; the model runs the same query on the equivalent script and yields the number of receives that wait for a full timeout",
     "write timeouts are applied but not exercised (a loopback peer never blocks a small write); scheduling slack 600 ms",
 ]
-RULE = ("HTTP (Eco through ureq) against a web server that is silent / stalls inside the head / stalls inside the body / refuses / closes, with explicit settings and with none (4 s defaults), TCP connects to a peer that drops the SYN (full accept queue) with connect timeouts of 250-1500 ms; UDP (valve, quake 3) and TCP (minecraft java) queries x IPv4 / IPv6 loopback x server silent from the start / after the first reply / refusing / closing x read timeout 150 / 300 ms (write timeout different from read) x retries 0..2; "
+RULE = ("HTTP (Eco through ureq) against a web server that is silent / stalls inside the head / stalls inside the body / refuses / closes, with explicit settings, with only some of the durations set, and with none (4 s defaults), TCP connects to a peer that drops the SYN (full accept queue) with connect timeouts of 250-1500 ms; UDP (valve, quake 3) and TCP (minecraft java) queries x IPv4 / IPv6 loopback x server silent from the start / after the first reply / refusing / closing x read timeout 150 / 300 ms (write timeout different from read) x retries 0..2; "
         "raw exchanges through UdpSocket / TcpSocket with payloads of 0, 1, 1024, 1025, 6144, 65487, 65488, 65507 bytes and requested sizes None / 65535; "
         "bounds: elapsed within [k*read - 60 ms, k*read + 600 ms] where k is the model's number of timed-out receives; non-trivial = k > 0 or payload > 1024; distinct by case bytes")
 
@@ -65,6 +65,14 @@ def gen_cases(tier, rng):
         ts = {"connect": ms(1000), "read": ms(1000), "write": ms(1000), "retries": 0}
         specs.append(("http-body-stall", 5, v6, ts, [b"HTTP/1.1 200 OK\r\nContent-Type: application/json\r\nContent-Length: 500\r\n\r\n{\"Info\":"], 0, b"", None))
         specs.append(("http-head-stall", 5, v6, ts, [b"HTTP/1.1 200 OK\r\nContent-Type: application/json\r\nContent-"], 0, b"", None))
+        # only some of the three durations configured: a read timeout alone must still bound the reads
+        ts = {"connect": ms(1000), "read": ms(300), "write": None, "retries": 0}
+        specs.append(("http-silent-no-write-timeout", 5, v6, ts, [], 0, b"", None))
+        specs.append(("valve-silent-no-write-timeout", 0, v6, ts, [], 0, b"", None))
+        specs.append(("java-stall-no-write-timeout", 2, v6, ts, [], 0, b"", None))
+        ts = {"connect": None, "read": ms(300), "write": ms(2000), "retries": 0}
+        specs.append(("http-silent-no-connect-timeout", 5, v6, ts, [], 0, b"", None))
+        specs.append(("java-stall-no-connect-timeout", 2, v6, ts, [], 0, b"", None))
         ts = {"connect": ms(1000), "read": ms(300), "write": ms(300), "retries": 0}
         specs.append(("http-refused", 5, v6, ts, [], 2, b"", None))
         specs.append(("http-closed", 5, v6, ts, [], 1, b"", None))
@@ -86,6 +94,7 @@ def gen_cases(tier, rng):
     for i, (s, b) in enumerate(zip(specs, bounds)):
         k = int(b.split("=", 1)[1]) if b.startswith("timeouts=") else None
         tsd = s[3] if s[3] is not None else {"connect": ms(4000), "read": ms(4000)}
+        tsd = dict(tsd, connect=tsd.get("connect") or ms(0))
         read = tsd["read"][0] * 1000 + tsd["read"][1] // 1000000
         conn = tsd["connect"][0] * 1000 + tsd["connect"][1] // 1000000
         meta = {"stream": s[0], "timeouts": k, "read_ms": read, "payload": len(s[6]), "connect_wait_ms": conn if s[5] == 4 else 0}
